@@ -512,20 +512,28 @@ Example C19_ex_build_detect :
 Proof. vm_compute. repeat split; try reflexivity. eexists. reflexivity. Qed.
 
 (* the init oracles on concrete runs: accepted for the model, and not vacuous *)
+Definition ex_il : iflags :=
+  {| i_project := Some "./projA"; i_generated := Some "./gen"; i_output := Some "./tauri.conf.json";
+     i_validation := Some "zod"; i_verbose := false; i_visualize := false |}.
+Definition ex_ilf : iflags :=
+  {| i_project := Some "./projA"; i_generated := Some "./gen"; i_output := Some "./typegen.json";
+     i_validation := Some "zod"; i_verbose := false; i_visualize := false |}.
+Definition ex_target_doc : json :=
+  match fs_get ex_fs (init_target ex_il) with Some (NDoc (Some d)) => d | _ => JNull end.
 Example C19_ex_init_oracles :
-  let il := {| i_project := Some "./projA"; i_generated := Some "./gen"; i_output := Some "./tauri.conf.json";
-               i_validation := Some "zod"; i_verbose := false; i_visualize := false |} in
-  let ilf := {| i_project := Some "./projA"; i_generated := Some "./gen"; i_output := Some "./typegen.json";
-                i_validation := Some "zod"; i_verbose := false; i_visualize := false |} in
-  norm (init_generated il) <> norm (init_target il)
-  /\ (exists d, fs_get ex_fs (init_target il) = Some (NDoc (Some d))
-        /\ init_ok_b ex_fs il d (obs_of_result (run_init ex_fs il)) (doc_at (run_init ex_fs il) (init_target il)) = true
-        /\ init_ok_b ex_fs il d (obs_of_result (run_init ex_fs il)) (Some d) = false
-        /\ init_ok_b ex_fs il d (ORejected true) (Some d) = false)
-  /\ init_file_ok_b ex_fs ilf false (obs_of_result (run_init_file ex_fs ilf false)) (doc_at (run_init_file ex_fs ilf false) "./typegen.json") = true
-  /\ init_file_ok_b ex_fs ilf false (ORejected true) None = false
-  /\ init_file_ok_b ex_fs ilf false ONoCommands (Some (JObj [])) = false.
-Proof. vm_compute. split; [discriminate|]. split; [eexists; repeat split; reflexivity|]. repeat split; reflexivity. Qed.
+  norm (init_generated ex_il) <> norm (init_target ex_il)
+  /\ fs_get ex_fs (init_target ex_il) = Some (NDoc (Some ex_target_doc))
+  /\ init_ok_b ex_fs ex_il ex_target_doc (obs_of_result (run_init ex_fs ex_il)) (doc_at (run_init ex_fs ex_il) (init_target ex_il)) = true
+  /\ init_ok_b ex_fs ex_il ex_target_doc (obs_of_result (run_init ex_fs ex_il)) (Some ex_target_doc) = false
+  /\ init_ok_b ex_fs ex_il ex_target_doc (ORejected true) (Some ex_target_doc) = false
+  /\ init_file_ok_b ex_fs ex_ilf false (obs_of_result (run_init_file ex_fs ex_ilf false)) (doc_at (run_init_file ex_fs ex_ilf false) "./typegen.json") = true
+  /\ init_file_ok_b ex_fs ex_ilf false (ORejected true) None = false
+  /\ init_file_ok_b ex_fs ex_ilf false ONoCommands (Some (JObj [])) = false.
+Proof.
+  split; [vm_compute; discriminate|]. split; [vm_compute; reflexivity|].
+  split; [vm_compute; reflexivity|]. split; [vm_compute; reflexivity|]. split; [vm_compute; reflexivity|].
+  split; [vm_compute; reflexivity|]. split; vm_compute; reflexivity.
+Qed.
 
 Print Assumptions C19_preserve.
 Print Assumptions C19_save_refused.
